@@ -155,6 +155,18 @@ Record eaccount := mkEAcc {
   e_storage : list (key * (word * word));       (* key -> (original_value, present_value) *)
 }.
 
+(* What `DatabaseCommitExt::{increment_balances, drain_balances}` (revm-database-interface 12.1.1,
+   lib.rs:287-345) and grevm's `ParallelState::touched_account` hand to the commit for one listed
+   address: `Account::from(info)` (original_info = info, no status flag) or
+   `Account::new_not_existing` (default info, LoadedAsNotExisting), the balance updated by [f],
+   then `mark_touch()`.  No storage. *)
+Definition touched_account (oi : option info) (f : info -> info) : eaccount :=
+  let i := match oi with Some i => i | None => default_info end in
+  mkEAcc (f i) i true false false (match oi with Some _ => false | None => true end) [].
+
+Definition incr_fun (inc : N) : info -> info := fun i => set_balance i (sat_add (balance i) inc).
+Definition drain_fun : info -> info := fun i => set_balance i 0.
+
 (* `.filter(|(_, slot)| slot.is_changed()).map(|(key, slot)| (key, slot.into()))`
    (cache.rs:222-227, parallel_state.rs:305-310): StorageSlot {previous_or_original_value, present_value} *)
 Definition changed_storage (st : list (key * (word * word))) : list (key * (word * word)) :=
